@@ -593,9 +593,12 @@ func c09CssTrigger(k c09CssCase, in []c09CssTok, inOpen bool) []string {
 	src := k.src
 	if inOpen {
 		add("K-C09-CSS-8") // the input ends inside a string / url / escape: the appended `}` is swallowed
+		if len(in) > 0 && (in[len(in)-1].tt == c09CssURL || in[len(in)-1].tt == c09CssString && len(in) > 1 && in[len(in)-2].tt == c09CssFunction) {
+			add("K-C09-CSS-6") // … and a url cut off by EOF loses its last byte
+		}
 	}
 	if c09CssHexCRLF.MatchString(src) {
-		add("K-C09-CSS-11") // hex escape terminated by CRLF: the dependency lexer takes the CR only
+		add("K-C09-CSS-10") // hex escape terminated by CRLF: the dependency lexer takes the CR only
 	}
 	if c09CssStrayCloser(in) {
 		add("K-C09-CSS-9") // unmatched `)` / `]` in a declaration: error recovery of the dependency parser
@@ -676,7 +679,7 @@ func c09CssTrigger(k c09CssCase, in []c09CssTok, inOpen bool) []string {
 		}
 		// K10: a name ending in a hex escape without its terminating white space, a comment, a name character
 		if (t.tt == c09CssIdent || t.tt == c09CssHash || t.tt == c09CssDimension || t.tt == c09CssAtKeyword) && n.cmt && c09CssOpenHexEscape(t.lex) && (c09CssNameByte(n.lex[0]) || n.tt == c09CssLParen) {
-			add("K-C09-CSS-10")
+			add("K-C09-CSS-7")
 		}
 	}
 	if strings.Contains(src, "*/") {
@@ -695,23 +698,9 @@ func c09CssTrigger(k c09CssCase, in []c09CssTok, inOpen bool) []string {
 			inAttr = true
 		} else if t.tt == c09CssRBracket {
 			inAttr = false
-		} else if inAttr && i > 0 && t.ws && (t.tt == c09CssIdent || c09CssIsNum(t.tt)) && !(len(t.lex) == 1 && (t.lex == "i" || t.lex == "I")) &&
+		} else if inAttr && i > 0 && t.ws && (t.tt == c09CssIdent || c09CssIsNum(t.tt)) && !(len(t.lex) == 1 && (t.lex == "i" || t.lex == "I" || t.lex == "s" || t.lex == "S")) &&
 			(in[i-1].tt == c09CssIdent || in[i-1].tt == c09CssString || c09CssIsNum(in[i-1].tt) || in[i-1].tt == c09CssHash) {
 			add("K-C09-CSS-4")
-		} else if inAttr && i > 0 && t.ws && t.tt == c09CssIdent && in[i-1].tt == c09CssString && strings.Contains(in[i-1].lex, "\\") {
-			add("K-C09-CSS-4") // `[a="b\31" i]`: the unquoted value ends in a hex escape that swallows the space
-		}
-	}
-	low := strings.ToLower(src)
-	if strings.Contains(low, "@import") {
-		for i, t := range in {
-			if t.tt == c09CssAtKeyword && strings.EqualFold(t.lex, "@import") && i+1 < len(in) && in[i+1].tt == c09CssURL {
-				v := strings.TrimSpace(in[i+1].lex[4:])
-				v = strings.TrimSpace(strings.TrimSuffix(v, ")"))
-				if len(v) == 1 {
-					add("K-C09-CSS-6")
-				}
-			}
 		}
 	}
 	return ids
@@ -784,17 +773,15 @@ func c09CssKnownExplains(id, failed string) bool {
 	value := strings.HasPrefix(failed, "string/url value")
 	open := strings.HasPrefix(failed, "output ends inside")
 	switch id {
-	case "K-C09-CSS-1", "K-C09-CSS-2", "K-C09-CSS-10":
+	case "K-C09-CSS-1", "K-C09-CSS-2", "K-C09-CSS-7":
 		return written
 	case "K-C09-CSS-3":
 		return written || open || strings.HasPrefix(failed, "brackets balanced") || outside // `\` + newline + `}` becomes `\}`
 	case "K-C09-CSS-4", "K-C09-CSS-5":
 		return outside
-	case "K-C09-CSS-6":
-		return value || outside
-	case "K-C09-CSS-11":
+	case "K-C09-CSS-10":
 		return written || value || outside
-	case "K-C09-CSS-8", "K-C09-CSS-9":
+	case "K-C09-CSS-6", "K-C09-CSS-8", "K-C09-CSS-9":
 		return true // error recovery on malformed input: any of the checks may notice
 	}
 	return false
@@ -1357,6 +1344,8 @@ var c09CssFixedCorpus = []string{
 	"a{b:calc(1px + 2px)}", "a{b:calc(1px - -2px)}", "a{b:calc(1px+2px)}", "a{b:a (b)}", "a{b:a\\31  b}", "a{b:a\\31 b}", "a{b:1 em}", "a{b:1 e3}", "a{b:1 -2}", "a{b:1.0 .5}",
 	"a{b:1e 3}", "a{b:- a}", "a{b:# a}", "a{b:@ a}", "a{b:. 5}", "a{b:u+1 ?}", "a{b:url( \"a b\" ) c}", "a{b:a\\/ b}", "a{b:a\\) b}", "a{b:< !-- a}", "a{b:- ->}",
 	"a{rotate:0deg}", "a{b:hypot(0px,3px)}", "a{color:rgb(255,0%,0)}", "a{width:1.5e10px}",
+	// 71d92ee, addcaae
+	"[a=b s]{c:d}", "[a=\"b\" S]{c:d}", "[a=\"b\\31\" i]{c:d}", "@import url(x);", "@import url( \"x\" );", "@namespace Foo \"u\";Foo|a{b:c}", "a::part(Foo){b:c}",
 }
 
 func c09CssFiles(c *Ctx) []string {
@@ -1397,7 +1386,7 @@ func c09CssStages(c *Ctx) error {
 	st = c.R.StartStage("c09-css-decl", "generated declarations: 1–5 value tokens from the pool with random separators (none, spaces, newlines, comments), 27 property names (rewritten and passed-through ones, IE hacks), `!important` spellings, stylesheet and inline mode, KeepCSS2 on/off, Precision 0/3; pairs of function arguments; the fixed regression corpus; same checks; non-trivial = output differs from input")
 	var cases []c09CssCase
 	for _, s := range c09CssFixedCorpus {
-		cases = append(cases, c09CssCase{src: s, decl: true, tag: "fixed-corpus"})
+		cases = append(cases, c09CssCase{src: s, decl: strings.HasPrefix(s, "a{"), tag: "fixed-corpus"})
 	}
 	cases = append(cases, c09CssDeclCases(r, c.N(6000, 150000))...)
 	cases = append(cases, c09CssArgPairCases(r, c.N(4000, 100000))...)
